@@ -93,7 +93,7 @@ func H_C20_ShipOp() {
 	op := zzvrt.Choice("op", c20Count)
 	zzvrt.StartAccessLog()
 	e.c20Op(op)
-	zzvrt.RunSpawnedExcept("setHandshakeTimer") // delayed-close closures; timer goroutines stay parked
+	zzvrt.RunAll() // everything the event spawned runs; short delays elapse, handshake timers stay pending (SetTimerLimit in newEnv)
 	role := 0
 	if e.c.role == ShipRoleClient {
 		role = 1
